@@ -28,9 +28,12 @@ kTags == <<84, 97, 103, 115, 58, 32, 116, 49, 44, 32, 116, 50>>   \* "Tags: t1, 
 uA == <<88, 45, 65, 58, 32, 117, 110, 107>>                 \* "X-A: unk"
 uB == <<88, 45, 66, 58, 32, 102, LF, SP, 109, 111, 114, 101, LF, SP, DOT, LF, SP, 101, 110, 100>>   \* "X-B: f\n more\n .\n end"
 uC == <<88, 45, 67, 58>>                                    \* "X-C:"
+uLower == <<110, 97, 109, 101, 58, 32, 108, 111, 119>>     \* "name: low"   (not the known key Name)
+uUpper == <<67, 79, 85, 78, 84, 58, 32, 55>>                \* "COUNT: 7"    (not the known key Count)
 Lines6 == {kName, kCount, kTags, uA, uB, uC}
 Perms(S) == {p \in [1..Cardinality(S) -> S] : \A i, j \in 1..Cardinality(S) : p[i] = p[j] => i = j}
-Subsets == {{kName, uA}, {uA, kCount, uB}, {kTags, uC, uA, kName}, {uA, uB, uC}, {kName, kCount, kTags}, {uB, kName}}
+Subsets == {{kName, uA}, {uA, kCount, uB}, {kTags, uC, uA, kName}, {uA, uB, uC}, {kName, kCount, kTags}, {uB, kName},
+            {uLower, uA}, {uUpper, uLower, kTags}, {uLower, kName, uUpper}}
 DocOf(p) == Concat([i \in 1..Len(p) |-> p[i] \o <<LF>>])
 Sets == {[Name |-> <<99, 104, 97, 110, 103, 101, 100>>, Count |-> 9, Tags |-> <<<<122>>>>],
          [Name |-> <<>>, Count |-> 0, Tags |-> <<>>]}
